@@ -916,11 +916,19 @@ func (m *MonC12) classify(s *Snap, msg string, branchPaid ...sdk.Coins) (string,
 	if maxRel.Sign() > 0 {
 		rounderBound.Mul(flows, maxRel)
 	}
+	// a position's value may legitimately move by up to one base unit through other users' rounding (C04's
+	// tolerance) and is reported up to one unit above the exact value: per position that is worth Q (reward per
+	// unit of value) - negligible except for dust positions that hold a large entitlement
+	for _, q := range m.rs.Q {
+		if x := q[denom]; x != nil {
+			rounderBound.Add(rounderBound, x)
+		}
+	}
 	if inflated && excess.Sign() > 0 && covered.Cmp(sumE) >= 0 && shortfall.Cmp(new(big.Rat).Add(new(big.Rat).Add(excess, res), rounderBound)) <= 0 {
 		return "slash-inflation", fmt.Sprintf("pool holds %s%s, exact entitlements at receipt sum to %s, but index x current token value sums to %s because a slash inflated position values after the rewards accrued (shortfall of this claim %s)", s.BalOf(w.PoolAddr, denom), denom, ratStr(sumE), ratStr(sumQ), ratStr(shortfall))
 	}
-	if orr := m.rs.OverRounder[denom]; maxRel.Sign() > 0 || (orr != nil && orr.Sign() > 0) {
-		bound := new(big.Rat).Mul(flows, maxRel)
+	if orr := m.rs.OverRounder[denom]; rounderBound.Sign() > 0 || (orr != nil && orr.Sign() > 0) {
+		bound := new(big.Rat).Set(rounderBound)
 		bound.Add(bound, ratI64(int64(len(s.DelOrder))+1))
 		bound.Add(bound, res)
 		if orr != nil {
